@@ -76,7 +76,7 @@ func (fg *FnGen) step(fr *Frame, b *ssa.BasicBlock, ins ssa.Instruction, st *Sta
 		fr.vals[x] = ref
 		elem := x.Type().Underlying().(*types.Pointer).Elem()
 		fg.freshSubObjects(ref, elem, 0)
-		if (!x.Heap || capturedReadOnly(x)) && fr.top && !fg.noDefs {
+		if (!x.Heap || capturedReadOnly(x) || nonEscaping(x)) && fr.top && !fg.noDefs {
 			fg.stackCells = append(fg.stackCells, stackCell{ref: ref, ty: elem, src: x})
 		}
 		fg.storeValue(st, ref, elem, ti.zeroOf(elem))
